@@ -1,5 +1,5 @@
-(* C09/EquivIri.v -- the regenerated regular expression `iri_regex` (gen/RegexSrc.v, from
-   iri/src/_regex.rs) and the RFC 3987 rule `IRI` (Rfc3987.v) denote the same language.
+(* C09/EquivIrel.v -- the regenerated regular expression `irelative_ref_regex` (gen/RegexSrc.v, from
+   iri/src/_regex.rs) and the RFC 3987 rule `irelative_ref` (Rfc3987.v) denote the same language.
    The equation between the two atom-level terms is decided by RelationAlgebra's `ka` (a reflexive,
    Coq-verified decision procedure for Kleene algebra) for ALL Kleene algebras; it is then
    instantiated in the model of languages over code points and transported to the matcher.
@@ -11,14 +11,14 @@ From Sophia.C09 Require Import Model Rfc3987 Eval Lang.
 
 Section s.
   Context `{L : monoid.laws} `{Hl : BKA ≪ l} (n : ob X) (f : N -> X n n).
-  Lemma iri_ka : eval n f (abstract iri_regex) ≡ eval n f (abstract IRI).
+  Lemma irel_ka : eval n f (abstract irelative_ref_regex) ≡ eval n f (abstract irelative_ref).
   Proof. vm_compute. ka. Qed.
 End s.
 
-Theorem iri_regex_is_rfc3987 : forall w, matchb iri_regex w = matchb IRI w.
+Theorem irel_regex_is_rfc3987 : forall w, matchb irelative_ref_regex w = matchb irelative_ref w.
 Proof.
   apply ka_to_matchb.
   - vm_compute. reflexivity.
   - vm_compute. reflexivity.
-  - intro f. apply iri_ka.
+  - intro f. apply irel_ka.
 Qed.
